@@ -413,7 +413,9 @@ func (rt *Runtime) roundTrip(id string, raw []byte, w *wire) (*http.Response, er
 	tv := st.script.TamperView
 	drop := st.script.TamperDrop
 	rt.mu.Unlock()
-	if tv != nil {
+	if tv != nil && *tv == "" {
+		res.Header.Del("goa-view") // an unlabelled response
+	} else if tv != nil {
 		res.Header.Set("goa-view", *tv)
 	}
 	if len(drop) > 0 {
